@@ -145,14 +145,24 @@ def check_c12(prog, rep, tier, cfg):
                   instance={"guard": "olf_settings.format_multiline_strings"})
     # ---------------------------------------------------------------- C12.b
     R = "C12.b"
-    b = prog.body(SF + "format_multiline_strings")
+    b = prog.inlined(SF + "format_multiline_strings", keep=("try_rewrite_string", "lines_custom", "get_token_mut", "get_token", "set_content", "get_content"))
     if rep.check(b is not None, R, "anchor:format_multiline_strings", "format_multiline_strings not found"):
         sc = b.calls_to(LANG + "Token::set_content")
         if rep.check(len(sc) == 1, R, "one-set_content", "format_multiline_strings must call set_content exactly once"):
             facts = dominating_variant_facts(prog, b, sc[0].bb)
             vs = [(f[0], f[2]) for f in facts if f[1] == "is"]
             has = lambda sub, var: any(sub in k and v == (var,) for k, v in vs)
-            rep.check(has("map(", "Ok") and has("", "TextLiteral") and has("", "MultiLine"), R, "only-unignored-MultiLine-literals",
+            from panic import dominating_conditions as _dc
+            # the kind test may also be written `tok.get_token_type() == TokenType::TextLiteral(MultiLine)`
+            eq_kind = False
+            for c in _dc(b, sc[0].bb):
+                if c[0] == "call" and "TokenType as core::cmp::PartialEq" in c[1] and ((c[1].endswith("::eq") and c[3] is True) or (c[1].endswith("::ne") and c[3] is False)):
+                    oo = [Origins(b).of_operand(a) for a in c[2]]
+                    if any(any(x[0] == "const" and x[1] == "enum_variant" and str(x[2]).endswith("MultiLine") for x in o2) for o2 in oo) and \
+                            any(any(x[0] == "call" and x[2].endswith("get_token_type") for x in o2) for o2 in oo):
+                        eq_kind = True
+            not_ignored = has("map(", "Ok") or has("get_token_mut(", "Ok")
+            rep.check(not_ignored and ((has("", "TextLiteral") and has("", "MultiLine")) or eq_kind), R, "only-unignored-MultiLine-literals",
                       "set_content is not confined to tokens that are not ignored (Ok) and of kind TextLiteral(MultiLine): %s" % vs, where=sc[0].where(),
                       instance={"guards": ["Ok(tok)", "TextLiteral", "MultiLine"]})
             rep.check(has("try_rewrite_string(", "Some"), R, "only-if-rewrite-succeeded", "set_content is reachable when try_rewrite_string returned None (indentation rule violated => literal must stay)")
